@@ -38,7 +38,7 @@ ESSENTIAL_LABELS = {'all': ['multi_dest', 'subgroup', 'iterate_min>=1',
                             'multi_source', 'hook:loop_all',
                             'hook:initialize_pair', 'hook:reduce',
                             'hook:py_initialize', 'pre_post',
-                            'idx_by_name', 'openmp']}
+                            'idx_by_name', 'openmp', 'periodic_ghosts']}
 SHARD_TIMEOUT = {'quick': 1500, 'thorough': 6 * 3600}
 
 CLASSES = ['TI', 'TL', 'TIL', 'TILP', 'TA', 'TPA', 'TP', 'TR', 'TLR', 'TPY',
@@ -92,8 +92,8 @@ def leaf_strategy(draw, names, dests, allow_iter=True):
 
 
 @st.composite
-def program_strategy(draw):
-    dim = draw(st.sampled_from([1, 2, 2, 3]))
+def program_strategy(draw, force_periodic=False):
+    dim = 2 if force_periodic else draw(st.sampled_from([1, 2, 2, 3]))
     kernel = draw(st.sampled_from(KERNELS))
     if kernel == 'WendlandQuintic' and dim == 1:
         kernel = 'CubicSpline'
@@ -151,14 +151,20 @@ def program_strategy(draw):
                    post=False, update_nnps=False, iterate=False, min_it=0,
                    max_it=1)
         groups[pos:pos] = [nudge, dep]
-    return dict(dim=dim, kernel=kernel, names=names, groups=groups)
+    periodic = force_periodic or (dim == 2 and
+                                  draw(st.integers(0, 2)) == 0)
+    return dict(dim=dim, kernel=kernel, names=names, groups=groups,
+                periodic=periodic)
 
 
 @st.composite
 def data_strategy(draw, prog):
     dim = prog['dim']
     names = prog['names']
-    L = draw(st.sampled_from([1.0, 1.5, 2.5]))
+    per = prog.get('periodic', False)
+    # periodic programs: box [0, 4)^2, ghosts are created by the domain
+    # manager at every update_domain (update_nnps), none are static
+    L = 4.0 if per else draw(st.sampled_from([1.0, 1.5, 2.5]))
     arrays = []
     for i, nm in enumerate(names):
         if len(names) == 3 and i == 2:
@@ -166,16 +172,16 @@ def data_strategy(draw, prog):
         else:
             n = draw(st.integers(4, 12))
         nghost = draw(st.integers(0, max(0, n - 4))) if n > 4 and \
-            draw(st.booleans()) else 0
+            draw(st.booleans()) and not per else 0
         coords = []
         for a in range(3):
             if a < dim:
-                coords.append([draw(st.integers(0, 64)) / 64.0 * L
+                coords.append([draw(st.integers(0, 63)) / 64.0 * L
                                for _ in range(n)])
             else:
                 coords.append([0.0] * n)
         hk = draw(st.sampled_from(['const', 'var']))
-        h0 = draw(st.sampled_from([0.3, 0.45, 0.6]))
+        h0 = 0.3 if per else draw(st.sampled_from([0.3, 0.45, 0.6]))
         hs = [h0 if hk == 'const' else
               h0 * draw(st.sampled_from([0.75, 1.0, 1.25]))
               for _ in range(n)]
@@ -329,6 +335,14 @@ class Side(object):
     pass
 
 
+def make_domain(prog):
+    if not prog.get('periodic'):
+        return None
+    from pysph.base.nnps import DomainManager
+    return DomainManager(xmin=0.0, xmax=4.0, ymin=0.0, ymax=4.0,
+                         periodic_in_x=True, periodic_in_y=True)
+
+
 def setup_program(prog, first_data):
     """Compile the program once; returns the two sides."""
     from pysph.base import kernels
@@ -342,13 +356,15 @@ def setup_program(prog, first_data):
     c.log = []
     c.groups, c.eqs = build_groups(prog, c.arrays, c.log, 0)
     c.kernel = K(dim=prog['dim'])
-    c.ev = jit.compiled_evaluator(c.arrays, c.groups, c.kernel, prog['dim'])
+    c.ev = jit.compiled_evaluator(c.arrays, c.groups, c.kernel, prog['dim'],
+                                  domain=make_domain(prog))
     r = Side()
     r.arrays = jit.make_arrays(first_data['arrays'])
     r.log = []
     r.groups, r.eqs = build_groups(prog, r.arrays, r.log, 100000)
     r.kernel = K(dim=prog['dim'])
-    r.nnps = jit.sorted_nnps(prog['dim'], r.arrays, r.kernel.radius_scale)
+    r.nnps = jit.sorted_nnps(prog['dim'], r.arrays, r.kernel.radius_scale,
+                             domain=make_domain(prog))
     r.ev = RefEval(r.arrays, r.groups, r.kernel, r.nnps)
     return c, r
 
@@ -375,6 +391,8 @@ def run_data(prog, sides, data):
     if 'real_false' in feats and has_ghost:
         feats.add('real_false_ghosts')
     feats.discard('real_false')
+    if prog.get('periodic'):
+        feats.add('periodic_ghosts')
     labels += sorted(feats)
     jit.load_data(c.arrays, data['arrays'])
     jit.load_data(r.arrays, data['arrays'])
@@ -440,7 +458,7 @@ def plan(ctx):
         nprog, ndata = 25, 40
         k = 16
     return [dict(name='prog-%02d%s' % (i, '-omp' if i % 4 == 3 else ''),
-                 nprog=nprog, ndata=ndata,
+                 nprog=nprog, ndata=ndata, periodic=(i % 5 == 1),
                  omp=[0, 0, 0, 4][i % 4] if i % 8 != 7 else 16)
             for i in range(k)]
 
@@ -464,7 +482,7 @@ def run_shard(spec, ctx):
               suppress_health_check=list(HealthCheck))
     @given(st.data())
     def outer(dat):
-        prog = dat.draw(program_strategy())
+        prog = dat.draw(program_strategy(bool(spec.get('periodic'))))
         first = dat.draw(data_strategy(prog))
         calls[0] += 1
         if calls[0] == 1:
